@@ -7,11 +7,11 @@ the task ids the derived's loop holds, and is preserved by every event (`SInv.ru
 -/
 namespace Leptos.Async
 
-/-- reader tasks that have not resolved yet (each holds one task handle of the boundary) -/
-def nLive (l : List Aw) : Nat := (l.filter fun a => decide (a.kind = .reader) && !a.done).length
+/-- reader tasks that have not resolved yet (each holds one task handle of the boundary): `liveReaders` -/
+abbrev nLive (l : List Aw) : Nat := liveReaders l
 
 theorem nLive_append (l m : List Aw) : nLive (l ++ m) = nLive l + nLive m := by
-  simp [nLive, List.filter_append]
+  simp [nLive, liveReaders, List.filter_append]
 
 theorem nLive_wake (l : List Aw) : nLive (l.map wakeAw) = nLive l := by
   induction l with
@@ -19,7 +19,7 @@ theorem nLive_wake (l : List Aw) : nLive (l.map wakeAw) = nLive l := by
   | cons a as ih =>
     have ha : (decide ((wakeAw a).kind = .reader) && !(wakeAw a).done) = (decide (a.kind = .reader) && !a.done) := by
       unfold wakeAw; split <;> rfl
-    simp only [nLive, List.map_cons, List.filter_cons] at ih ⊢
+    simp only [nLive, liveReaders, List.map_cons, List.filter_cons] at ih ⊢
     rw [ha]
     split <;> simp [ih]
 
@@ -32,24 +32,24 @@ theorem nLive_poll_loading (v : Option Val) (l : List Aw) (i : Nat) :
     cases i with
     | zero =>
       cases hk : a.kind <;> cases hd : a.done <;> cases hb : a.aborted <;>
-        simp [modifyAt, nLive, List.filter_cons, pollAw, hk, hd, hb]
+        simp [modifyAt, nLive, liveReaders, List.filter_cons, pollAw, hk, hd, hb]
     | succ i =>
-      simp only [modifyAt, nLive, List.filter_cons] at ih ⊢
+      simp only [modifyAt, nLive, liveReaders, List.filter_cons] at ih ⊢
       split <;> simp [ih]
 
 /-- polling task `i`: if it is a reader that resolves, one handle is dropped -/
 theorem nLive_poll (ld : Bool) (v : Option Val) (l : List Aw) (i : Nat) :
     nLive (modifyAt (pollAw ld v) l i) + handleDrop ld l[i]? = nLive l := by
   induction l generalizing i with
-  | nil => simp [modifyAt, nLive, handleDrop]
+  | nil => simp [modifyAt, nLive, liveReaders, handleDrop]
   | cons a as ih =>
     cases i with
     | zero =>
       cases ld <;> cases hk : a.kind <;> cases hd : a.done <;> cases hb : a.aborted <;>
-        simp [modifyAt, nLive, pollAw, handleDrop, hk, hd, hb]
+        simp [modifyAt, nLive, liveReaders, pollAw, handleDrop, hk, hd, hb]
     | succ i =>
       have := ih i
-      simp only [modifyAt, nLive, List.filter_cons, List.getElem?_cons_succ] at this ⊢
+      simp only [modifyAt, nLive, liveReaders, List.filter_cons, List.getElem?_cons_succ] at this ⊢
       split <;> simp_all <;> omega
 
 /-- every awaiter under the boundary has resumed or has been dropped with its reader -/
@@ -100,12 +100,12 @@ structure SInv (s : State) : Prop where
   p2 : s.pc ≠ .fetching → s.idsHeld = 0
   p3 : s.pc = .fetching → (s.coveredCur = true ↔ 0 < s.idsHeld)
   /-- no reader under the boundary: nothing is registered, held or waited for on its behalf -/
-  p4 : s.noReader = true → s.pending = 0 ∧ s.susp = 0 ∧ s.idsHeld = 0 ∧ s.readSince = false ∧ sawsGone s.aws
+  p4 : s.noReader = true → s.susp = 0 ∧ s.idsHeld = 0 ∧ sawsGone s.aws
   p5 : s.pc = .fetching → s.msetDuring = false → s.loading = true
   p6 : s.pc = .fetching → s.msetDuring = false → s.readSince = true → 0 < nLive s.aws
 
 theorem SInv.init (c : Cfg) : SInv (init c) := by
-  constructor <;> simp [Async.init, nLive, sawsGone]
+  constructor <;> simp [Async.init, nLive, liveReaders, sawsGone]
 
 /-! ## events that do not touch the boundary, the awaiters, `pc` or `loading` -/
 
@@ -183,7 +183,7 @@ theorem SInv.notifySubs {s : State} (h : SInv s) (hm : s.pc = .fetching → s.ms
     simp only [notifySubs_pending, notifySubs_idsHeld, notifySubs_susp, notifySubs_readSince,
       notifySubs_coveredCur, notifySubs_msetDuring, notifySubs_noReader, notifySubs_pc, notifySubs_aws, notifySubs_loading,
       nLive_wake] <;> simp_all
-  exact fun hn => sawsGone_wake (p4 hn).2.2.2.2
+  exact fun hn => sawsGone_wake (p4 hn).2.2
 
 theorem SInv.manualSet {s : State} (h : SInv s) (v : Val) : SInv (manualSet s v) := by
   obtain ⟨p1, p2, p3, p4, p5, p6⟩ := h
@@ -206,14 +206,14 @@ theorem SInv.applyResult {s : State} (h : SInv s) :
 
 theorem SInv.attach {s : State} (h : SInv s) : SInv { s with aws := s.aws ++ [{}] } := by
   obtain ⟨p1, p2, p3, p4, p5, p6⟩ := h
-  have h0 : nLive [({} : Aw)] = 0 := by simp [nLive]
+  have h0 : nLive [({} : Aw)] = 0 := by simp [nLive, liveReaders]
   have h1 : sawsGone [({} : Aw)] := by simp [sawsGone]
   constructor <;> simp_all [nLive_append]
-  exact fun hn => sawsGone_append (p4 hn).2.2.2.2 h1
+  exact fun hn => sawsGone_append (p4 hn).2.2 h1
 
 theorem SInv.bread {s : State} (h : SInv s) : SInv (bread s) := by
   obtain ⟨p1, p2, p3, p4, p5, p6⟩ := h
-  have h1 : nLive [({ kind := .reader } : Aw)] = 1 := by simp [nLive]
+  have h1 : nLive [({ kind := .reader } : Aw)] = 1 := by simp [nLive, liveReaders]
   unfold Async.bread
   split
   · split
@@ -224,18 +224,20 @@ theorem SInv.bread {s : State} (h : SInv s) : SInv (bread s) := by
 theorem SInv.attachS {s : State} (h : SInv s) :
     SInv { s with aws := s.aws ++ [{ kind := .saw }], noReader := false } := by
   obtain ⟨p1, p2, p3, p4, p5, p6⟩ := h
-  have h0 : nLive [({ kind := .saw } : Aw)] = 0 := by simp [nLive]
+  have h0 : nLive [({ kind := .saw } : Aw)] = 0 := by simp [nLive, liveReaders]
   constructor <;> simp_all [nLive_append]
 
-theorem nLive_drop (l : List Aw) : nLive (l.map dropAw) = 0 := by
-  unfold nLive
-  rw [List.length_eq_zero_iff, List.filter_eq_nil_iff]
-  intro a ha
-  rcases List.mem_map.mp ha with ⟨b, _, rfl⟩
-  unfold dropAw
-  (repeat' split) <;> simp_all
+theorem nLive_drop (l : List Aw) : nLive (l.map dropAw) = nLive l := by
+  induction l with
+  | nil => rfl
+  | cons a as ih =>
+    have ha : (decide ((dropAw a).kind = .reader) && !(dropAw a).done) = (decide (a.kind = .reader) && !a.done) := by
+      unfold dropAw; split <;> simp_all
+    simp only [nLive, liveReaders, List.map_cons, List.filter_cons] at ih ⊢
+    rw [ha]
+    split <;> simp [ih]
 
-/-- the readers are disposed: every handle and task id the boundary had given out on their behalf is back -/
+/-- the readers are disposed: every task id the loop holds on their behalf is back, nothing stays registered -/
 theorem SInv.bdrop {s : State} (h : SInv s) : SInv (bdrop s) := by
   obtain ⟨p1, p2, p3, p4, p5, p6⟩ := h
   unfold Async.bdrop
@@ -250,8 +252,8 @@ theorem SInv.pollA {s : State} (h : SInv s) (i : Nat) : SInv (pollA s i) := by
   · exact p2
   · exact p3
   · intro hn
-    obtain ⟨a1, a2, a3, a4, a5⟩ := p4 hn
-    exact ⟨by omega, by rw [sawPolls_gone a5]; omega, a3, a4, sawsGone_poll a5 _ _ _⟩
+    obtain ⟨a2, a3, a5⟩ := p4 hn
+    exact ⟨by rw [sawPolls_gone a5]; omega, a3, sawsGone_poll a5 _ _ _⟩
   · exact p5
   · intro a b c
     have hl := p5 a b
@@ -266,14 +268,14 @@ theorem SInv.toFetch {s : State} (h : SInv s) (hpc : s.pc = .waiting) : SInv (fe
   have hn : nLive (if s.isLocal = true then s.aws ++ [({ kind := .tick, tag := s.nf + 1 } : Aw)] else s.aws)
       = nLive s.aws := by
     split
-    · rw [nLive_append]; simp [nLive]
+    · rw [nLive_append]; simp [nLive, liveReaders]
     · rfl
   have hg : s.noReader = true →
       sawsGone (if s.isLocal = true then s.aws ++ [({ kind := .tick, tag := s.nf + 1 } : Aw)] else s.aws) := by
     intro hnr
     split
-    · exact sawsGone_append (p4 hnr).2.2.2.2 (by simp [sawsGone])
-    · exact (p4 hnr).2.2.2.2
+    · exact sawsGone_append (p4 hnr).2.2 (by simp [sawsGone])
+    · exact (p4 hnr).2.2
   rcases fetchState_cases s with ⟨_, _, _, _, heq⟩ | heq <;> rw [heq] <;> constructor <;>
     (try (intro hnr; have := p4 hnr; have := hg hnr)) <;> simp_all <;> omega
 
